@@ -340,3 +340,6 @@ def run(program, res, tier):
     res.rule("C09-S5", "an extend that contains an aggregate anywhere is windowed (SQL emits OVER, so N rows stay N rows)")
     from . import c26
     c26.windowed_classification_rules(program, res, rule="C09-S5")
+    res.rule("C09-S6", "two windowed extends share a node only when they have the same partition: each row's value stays computed over its own group")
+    from . import c06
+    c06.partition_merge_rule(program, Relabel(res, {"*": "C09-S6"}))
